@@ -53,6 +53,18 @@ def run(chk):
     chk.hist("mask:single-bit x 129 lengths", 8 * 16 * 129)
     for n in range(129):
         cmds.append(("mask %s %s %d" % (hexg(base), hexg(base), n), ("mask", True)))
+    # the same around addresses of a special shape (IPv4-mapped, IPv4-compatible; thorough: also all-zero, all-ones, one leading group),
+    # as the mask and as the candidate: a shape-dependent shortcut in the comparison must still compare all leading bits
+    x, y = rng.randrange(1, 65536), rng.randrange(65536)
+    shapes = [[0, 0, 0, 0, 0, 0xffff, x, y], [0, 0, 0, 0, 0, 0, x, y]] + ([] if quick else [[0] * 8, [0xffff] * 8, [x, 0, 0, 0, 0, 0, 0, 0], [0, 0, 0, 0, 0, 0xffff, 0, 0]])
+    for sb in shapes:
+        for gi in range(8):
+            for bit in list(range(16)) + [None]:
+                m = list(sb); m[gi] ^= (1 << bit) if bit is not None else 0xffff
+                for n in range(129):
+                    cmds.append(("mask %s %s %d" % (hexg(sb), hexg(m), n), ("mask", lead_equal(sb, m, n))))
+                    cmds.append(("mask %s %s %d" % (hexg(m), hexg(sb), n), ("mask", lead_equal(m, sb, n))))
+        chk.hist("mask:special shape, single-bit x 129 lengths x both roles", 8 * 17 * 129 * 2)
     for _ in range(4000 if quick else 200000):
         a = [rng.randrange(65536) for _ in range(8)]; m = list(a)
         for _ in range(rng.choice([0, 1, 1, 2, 3])):
@@ -101,7 +113,7 @@ def run(chk):
                 cmds.append(("pton %d %d %s" % (ub, tr, s.hex()), None))
             nstr += 1
     chk.hist("pton:all strings over '019af:./* ' up to length %d" % L, nstr)
-    chk.cov["exhaustive_scope"] = "all %d strings of length <= %d over the 10-character alphabet '019af:./* ' in all four (bits, allow_trailing) modes; every single-bit group difference x every prefix length 0..128" % (nstr, L)
+    chk.cov["exhaustive_scope"] = "all %d strings of length <= %d over the 10-character alphabet '019af:./* ' in all four (bits, allow_trailing) modes; every single-bit group difference x every prefix length 0..128, around a random address and around IPv4-mapped / IPv4-compatible addresses in both roles (mask, candidate)" % (nstr, L)
     # grammar-derived and mutated strings
     for _ in range(6000 if quick else 200000):
         if rng.random() < 0.3:
